@@ -140,10 +140,10 @@ func (o *ObjectSchema) unserializeInlinedDataToMap(data any) (map[string]any, er
 	for fieldName, property := range o.Properties() {
 		unserializedProperty, err := property.Unserialize(data)
 		if err != nil {
-			return nil,
-				fmt.Errorf("error while unserializing single inlined property %s for object %s (%q);"+
+			return nil, ConstraintErrorAddPathSegment(
+				fmt.Errorf("error while unserializing single inlined property %s for object %s (%w);"+
 					"fix the property or specify the object as a map",
-					fieldName, o.ID(), err)
+					fieldName, o.ID(), err), fieldName)
 		}
 		return map[string]any{
 			fieldName: unserializedProperty,
